@@ -266,6 +266,7 @@ type sim struct {
 	orig  []parser.Instruction
 	sets  map[uint64]rwSets // by original address
 	model []*mBlock         // in current block order
+	sweeps int // lookup sweeps so far (their direction alternates)
 }
 
 // snapshot renders the full observable state of the code.
@@ -346,7 +347,36 @@ func (s *sim) invariants(ev int) bool {
 						"instruction at block %d position %d must precede position %d but does not\n%s", bi, i, d, s.snapshot())
 				}
 			}
-			// lookups at the instruction start and inside it
+			addr += m.len
+		}
+		if uint64(b.End()) != addr {
+			return !s.fail(P, "addresses", "addresses/block-end", ev, "block %d ends at %#x, instructions end at %#x", bi, b.End(), addr)
+		}
+	}
+	// Lookups at every instruction start and inside every instruction. The
+	// sweep changes direction from one event to the next, so that the first
+	// and the last address asked after an operation are not always the same
+	// ones (an index or memo left behind by the previous sweep must not be
+	// trusted by the code under test).
+	s.sweeps++
+	for k := range blocks {
+		bi := k
+		if s.sweeps%2 == 0 {
+			bi = len(blocks) - 1 - k
+		}
+		b, mb := blocks[bi], s.model[bi]
+		starts := make([]uint64, len(mb.seq))
+		addr := mb.begin
+		for i, m := range mb.seq {
+			starts[i] = addr
+			addr += m.len
+		}
+		for k2 := range mb.seq {
+			i := k2
+			if s.sweeps%2 == 0 {
+				i = len(mb.seq) - 1 - k2
+			}
+			m, addr := mb.seq[i], starts[i]
 			cb, ok := s.code.Address(model.Addr(addr))
 			if !ok || cb.Begin() != b.Begin() {
 				return !s.fail(P, "lookup", "lookup/block", ev, "Code.Address(%#x) does not find block %#x", addr, mb.begin)
@@ -361,10 +391,6 @@ func (s *sim) invariants(ev int) bool {
 					return !s.fail(P, "lookup", "lookup/mid-instruction", ev, "Block.Address finds an instruction in the middle of %#x", addr)
 				}
 			}
-			addr += m.len
-		}
-		if uint64(b.End()) != addr {
-			return !s.fail(P, "addresses", "addresses/block-end", ev, "block %d ends at %#x, instructions end at %#x", bi, b.End(), addr)
 		}
 	}
 	return true
@@ -762,7 +788,10 @@ func (s *sim) regKeys() []string {
 
 // runBlock emulates n steps from addr on code, from the machine state derived
 // from seed (fully known register file, lazily supplied memory).
-func (s *sim) runBlock(code *deps.Code, addr uint64, n int, seed uint64) (o outcome) {
+// With end != 0 the run goes on until control leaves [addr, end) or comes
+// back to addr (at most 4n steps): for a basic block that is exactly n steps,
+// for a "block" with a jump target in its middle it is not.
+func (s *sim) runBlock(code *deps.Code, addr uint64, n int, seed uint64, end ...uint64) (o outcome) {
 	prov := &provider{seed: seed}
 	st := state.New()
 	for _, k := range s.regKeys() {
@@ -770,12 +799,21 @@ func (s *sim) runBlock(code *deps.Code, addr uint64, n int, seed uint64) (o outc
 	}
 	em := emulator.New(code, model.Addr(addr), prov, st)
 	fn, msg, panicked := core.Guard(func() {
-		for i := 0; i < n; i++ {
+		limit := n
+		if len(end) == 1 {
+			limit = 4 * n
+		}
+		for i := 0; i < limit; i++ {
 			if _, err := em.Step(); err != nil {
 				o.err = "step error"
 				break
 			}
 			o.steps++
+			if len(end) == 1 {
+				if ip := uint64(em.MustIP()); ip < addr || ip >= end[0] || ip == addr {
+					break
+				}
+			}
 		}
 		o.ip = uint64(em.MustIP())
 		var sb strings.Builder
@@ -873,8 +911,12 @@ func (s *sim) compareBehaviour(ev int, moved map[uint64]bool) bool {
 		}
 		for k := 0; k < 3; k++ {
 			seed := core.SplitMix64(s.t.VSeed + uint64(k)*977)
-			a := s.runBlock(fresh, mb.begin, len(mb.seq), seed)
-			b := s.runBlock(s.code, mb.begin, len(mb.seq), seed)
+			blockEnd := mb.begin
+			for _, m := range mb.seq {
+				blockEnd += m.len
+			}
+			a := s.runBlock(fresh, mb.begin, len(mb.seq), seed, blockEnd)
+			b := s.runBlock(s.code, mb.begin, len(mb.seq), seed, blockEnd)
 			s.ctx.Note("c05 block %#x seed %d: %s %d | %s %d", mb.begin, k, a.err, a.steps, b.err, b.steps)
 			if a.err != "" {
 				// The original order itself cannot be run to its end (the
